@@ -791,3 +791,15 @@ Definition check_case (line : sval) : sval :=
       if String.eqb k "chk" then check_one id prop op impl (SL []) else SL [SY "bad-line"]
   | _ => SL [SY "bad-line"]
   end.
+
+(* coarse classification of a verdict, used to cross-check the extracted runner against evaluation inside Coq:
+   0 pass, 1 trivial, 2 diff, 3 fail, 4 unsupported, 5 anything else *)
+Definition verdict_kind (v : sval) : N :=
+  match v with
+  | SL [SY _; _; SY k] => if String.eqb k "pass" then 0 else 5
+  | SL [SY _; _; SL (SY k :: _)] =>
+      if String.eqb k "trivial" then 1 else if String.eqb k "diff" then 2 else if String.eqb k "fail" then 3
+      else if String.eqb k "unsupported" then 4 else 5
+  | _ => 5
+  end.
+Definition check_kinds (lines : list sval) : list N := map (fun l => verdict_kind (check_case l)) lines.
